@@ -10,7 +10,7 @@
    table-method answers to it). *)
 From Coq Require Import ZArith List Bool.
 From CSS Require Import Forest.Spec Forest.Model Forest.Run Forest.Extractor
-  Forest.ExtractorRun Forest.ExtractorTheorems.
+  Forest.ExtractorRun Forest.ExtractorTheorems Forest.Positional Forest.PositionalExtractor.
 Import ListNotations.
 
 Definition buckets_ok (ks : list bkey) : Prop := forall k, In k ks -> (bk_bucket k < 4)%nat.
@@ -54,9 +54,58 @@ Theorem C11_reverse_last : forall fuel root ks res,
   forall k, In k res -> bk_bucket k <> 0%nat.
 Proof. intros fuel root ks res B H. exact (extract_reverse_last fuel root ks res B H). Qed.
 
-(* exactly one rule per class: NOT proved in general (it is memoryless
-   determinacy of an energy game).  What is proved: the code's own check()
-   decides it — distinct_parents is sound. *)
+(* ---- exactly one rule per class ----
+   Memoryless determinacy of the derivability game (Forest/Positional.v):
+   of two keys for the same class one is always redundant, so a list that pumps
+   the root and is minimal for that has pairwise distinct left-hand sides. *)
+
+(* for ANY key list; uses Classical_Prop.classic (to compare the worth of the
+   class in the two lists with one of the keys removed) *)
+Theorem C11_minimal_one_rule_per_class : forall (R : list fkey) (root : nat),
+  pumps R root ->
+  (forall i, (i < length R)%nat -> ~ pumps (firstn i R ++ skipn (S i) R) root) ->
+  forall i j, (i < length R)%nat -> (j < length R)%nat ->
+    parent (nth i R dummy) = parent (nth j R dummy) -> i = j.
+Proof. exact minimal_one_rule_per_class. Qed.
+
+(* the same without any axiom, the value dichotomy (pumps, or has exactly n
+   terms) being a hypothesis on the lists with one key removed *)
+Theorem C11_minimal_one_rule_per_class_valued : forall (R : list fkey) (root : nat),
+  (forall i c, (i < length R)%nat ->
+     pumps (firstn i R ++ skipn (S i) R) c \/ exists n, terms (firstn i R ++ skipn (S i) R) c n) ->
+  pumps R root ->
+  (forall i, (i < length R)%nat -> ~ pumps (firstn i R ++ skipn (S i) R) root) ->
+  forall i j, (i < length R)%nat -> (j < length R)%nat ->
+    parent (nth i R dummy) = parent (nth j R dummy) -> i = j.
+Proof. exact minimal_one_rule_per_class_valued. Qed.
+
+(* memoryless determinacy itself: some sub-list with pairwise distinct
+   left-hand sides derives the same (class, value) pairs; uses classic *)
+Theorem C11_positional : forall R : list fkey,
+  exists R', incl R' R /\ NoDup (map parent R') /\
+             forall c v, derivable R c v -> derivable R' c v.
+Proof. exact positional_strong. Qed.
+
+(* the extracted keys have pairwise distinct left-hand sides, i.e. check()'s
+   assertion cannot fail on the model's result; uses classic *)
+Theorem C11_one_rule_per_class : forall fuel root ks res,
+  buckets_ok ks -> extract fuel root ks = Ok res -> Pk root ks ->
+  forall i j, (i < length res)%nat -> (j < length res)%nat ->
+    parent (bk_key (nth i res (mkb dummy 0))) = parent (bk_key (nth j res (mkb dummy 0))) -> i = j.
+Proof. intros fuel root ks res B H. exact (extract_one_rule_per_class fuel root ks res B H). Qed.
+
+(* the same without any axiom, given that the table method terminates on the
+   result with any one key removed (C03 termination would discharge this) *)
+Theorem C11_one_rule_per_class_runs : forall fuel root ks res,
+  buckets_ok ks -> extract fuel root ks = Ok res -> Pk root ks ->
+  (forall i, (i < length res)%nat ->
+     exists pick' fuel' st,
+       run pick' fuel' init (add_ops (firstn i res ++ skipn (S i) res)) = Some st) ->
+  forall i j, (i < length res)%nat -> (j < length res)%nat ->
+    parent (bk_key (nth i res (mkb dummy 0))) = parent (bk_key (nth j res (mkb dummy 0))) -> i = j.
+Proof. intros fuel root ks res B H. exact (extract_one_rule_per_class_runs fuel root ks res B H). Qed.
+
+(* kept: the code's own check() decides it — distinct_parents is sound. *)
 Theorem C11_one_rule_per_class_partial : forall l,
   distinct_parents l = true ->
   forall i j, (i < length l)%nat -> (j < length l)%nat ->
@@ -80,3 +129,8 @@ Print Assumptions C11_minimal.
 Print Assumptions C11_closed.
 Print Assumptions C11_reverse_last.
 Print Assumptions C11_one_rule_per_class_partial.
+Print Assumptions C11_minimal_one_rule_per_class.
+Print Assumptions C11_minimal_one_rule_per_class_valued.
+Print Assumptions C11_positional.
+Print Assumptions C11_one_rule_per_class.
+Print Assumptions C11_one_rule_per_class_runs.
